@@ -99,6 +99,9 @@ class Fragment(AbstractApplication):
             frag_offset = None
         while frag_offset is not None and frag_offset < len(payload_data):
             fctr = BundleContainer()
+            if 'receive' in ctr.actions:
+                # fragments of a received bundle keep its primary block as received
+                fctr.actions['receive'] = ctr.actions['receive']
             fctr.bundle.primary = ctr.bundle.primary.copy()
             fctr.bundle.primary.bundle_flags |= PrimaryBlock.Flag.IS_FRAGMENT
             fctr.bundle.primary.fragment_offset = frag_offset
